@@ -98,6 +98,60 @@ def check_fold(rep, ctx, mod):
     rep.check(rid, ok, "check_l0_checksum fold shape", "%s:%s" % (fn.file, fn.line), detail, function=fn.cname, obj="fold")
 
 
+def presence_rules(rep, ctx, mod, cg, prefix=""):
+    """name / path presence of every returned header (also the support rule behind C08's non-NULL string uses)"""
+    rd = mod.fn("lha_file_header_read")
+    # ---- R5: name / path presence -------------------------------------------------------
+    rid = rep.rule(prefix + "R5", "a header is returned only if (not a directory entry and filename != NULL) or parse_symlink succeeded or path != NULL", 1)
+    rep.need(rid, rd, "function lha_file_header_read")
+    if rd:
+        F = ctx.facts(rd)
+        dirstr = ("str", b"-lhd-")
+        tracked = {
+            "is_dir": ("eq", ("call", "strcmp", [("gep", ("field", HDR, "compress_method", ANY), [0]), dirstr]), 0),
+            "has_name": ("ne", hdr_field("filename"), 0),
+            "has_path": ("ne", hdr_field("path"), 0),
+            "symlink_ok": ("ne", ("call", "parse_symlink", [ANY]), 0),
+        }
+        ps = PathStates(rd, F, tracked)
+        # locate the presence test: the edges labelled has_name / has_path / symlink_ok that lie after the dispatch
+        for v, pb, b in success_edges(F, rd):
+            sts = ps.on_edge(pb, b) if pb is not None else ps.at_block(b)
+            bad = [s for s in sts if not ((refuted(s, "is_dir") and holds(s, "has_name")) or holds(s, "symlink_ok") or (holds(s, "is_dir") and holds(s, "has_path")))]
+            rep.check(rid, not bad and bool(sts), "lha_file_header_read: presence rule on return via bb%s" % pb,
+                      "%s:%s" % (rd.file, rd.blocks[pb if pb is not None else b].term.line()),
+                      "states: %s" % show(sts)[:6] if not bad else "a path returns a header without the presence rule: %s" % show(bad)[:4],
+                      function=rd.cname, obj="presence")
+        # R5b: after the presence test nothing stores NULL-able values into filename/path except parse_symlink (checked separately)
+        rid2 = rep.rule(prefix + "R5b", "after the presence test no callee other than parse_symlink writes the filename/path fields")
+        test_edges = ps.labelled_edges({"has_name", "has_path", "symlink_ok"})
+        after = blocks_reachable_from(rd, [s for _, s in test_edges])
+        wr = cg.field_writers(HDR, "filename") | cg.field_writers(HDR, "path")
+        for bb in sorted(after):
+            for ins in rd.blocks[bb].insts:
+                if ins.op == "call" and ins.callee and not ins.callee.startswith("llvm.") and mod.callee_cname(ins) != "parse_symlink":
+                    hit = cg.reachable([ins.callee]) & wr
+                    rep.check(rid2, not hit, "call %s after the presence test leaves filename/path alone" % mod.callee_cname(ins),
+                              ins.where(), "writers reachable: %s" % sorted(hit) if hit else None, function=rd.cname,
+                              obj="%s" % mod.callee_cname(ins))
+        # parse_symlink on success leaves filename non-NULL: filename = fullpath (non-NULL fact), split keeps/sets non-NULL
+        rid3 = rep.rule(prefix + "R5c", "parse_symlink succeeds only with filename set to a non-NULL string", 1)
+        psy = rep.need(rid3, mod.fn("parse_symlink"), "function parse_symlink")
+        if psy:
+            Mp = Matcher(psy)
+            sts = stores_to_field(mod, HDR, "filename", [psy])
+            ok = len(sts) == 1 and Mp.match(("call", "lha_file_header_full_path", [("param", 0)]), sts[0].ops[0], {}) is not None
+            rep.check(rid3, ok, "filename = lha_file_header_full_path(header)", sts[0].where() if sts else psy.file, None, function=psy.cname, obj="store")
+            if ok:
+                guarded_site(rep, rid3, ctx, sts[0], [("fullpath != NULL", ("ne", ("call", "lha_file_header_full_path", [("param", 0)]), 0))])
+            require_on_success(rep, rid3, ctx, psy, [("split_header_filename(header) != 0", ("ne", ("call", "split_header_filename", [("param", 0)]), 0))])
+            sp = mod.fn("split_header_filename")
+            if sp:
+                for s in stores_to_field(mod, HDR, "filename", [sp]):
+                    guarded_site(rep, rid3, ctx, s, [("strdup result != NULL", ("ne", ("call", "strdup", [ANY]), 0))])
+
+
+
 def run(tier, seed):
     rep = Report("C12", tier, "other",
                  "Static path analysis (available-facts dataflow and path states over the SSA control-flow graph of "
@@ -456,53 +510,7 @@ def run(tier, seed):
             for s in stores_to_field(mod, HDR, "raw_data_len", [ex]):
                 guarded_site(rep, rid, ctx, s, [("stream read succeeded", ("ne", ("call", "lha_input_stream_read", [("param", 1), ANY, ("param", 2)]), 0))])
 
-        # ---- R5: name / path presence -------------------------------------------------------
-        rid = rep.rule("R5", "a header is returned only if (not a directory entry and filename != NULL) or parse_symlink succeeded or path != NULL", 1)
-        if rd:
-            F = ctx.facts(rd)
-            dirstr = ("str", b"-lhd-")
-            tracked = {
-                "is_dir": ("eq", ("call", "strcmp", [("gep", ("field", HDR, "compress_method", ANY), [0]), dirstr]), 0),
-                "has_name": ("ne", hdr_field("filename"), 0),
-                "has_path": ("ne", hdr_field("path"), 0),
-                "symlink_ok": ("ne", ("call", "parse_symlink", [ANY]), 0),
-            }
-            ps = PathStates(rd, F, tracked)
-            # locate the presence test: the edges labelled has_name / has_path / symlink_ok that lie after the dispatch
-            for v, pb, b in success_edges(F, rd):
-                sts = ps.on_edge(pb, b) if pb is not None else ps.at_block(b)
-                bad = [s for s in sts if not ((refuted(s, "is_dir") and holds(s, "has_name")) or holds(s, "symlink_ok") or (holds(s, "is_dir") and holds(s, "has_path")))]
-                rep.check(rid, not bad and bool(sts), "lha_file_header_read: presence rule on return via bb%s" % pb,
-                          "%s:%s" % (rd.file, rd.blocks[pb if pb is not None else b].term.line()),
-                          "states: %s" % show(sts)[:6] if not bad else "a path returns a header without the presence rule: %s" % show(bad)[:4],
-                          function=rd.cname, obj="presence")
-            # R5b: after the presence test nothing stores NULL-able values into filename/path except parse_symlink (checked separately)
-            rid2 = rep.rule("R5b", "after the presence test no callee other than parse_symlink writes the filename/path fields")
-            test_edges = ps.labelled_edges({"has_name", "has_path", "symlink_ok"})
-            after = blocks_reachable_from(rd, [s for _, s in test_edges])
-            wr = cg.field_writers(HDR, "filename") | cg.field_writers(HDR, "path")
-            for bb in sorted(after):
-                for ins in rd.blocks[bb].insts:
-                    if ins.op == "call" and ins.callee and not ins.callee.startswith("llvm.") and mod.callee_cname(ins) != "parse_symlink":
-                        hit = cg.reachable([ins.callee]) & wr
-                        rep.check(rid2, not hit, "call %s after the presence test leaves filename/path alone" % mod.callee_cname(ins),
-                                  ins.where(), "writers reachable: %s" % sorted(hit) if hit else None, function=rd.cname,
-                                  obj="%s" % mod.callee_cname(ins))
-            # parse_symlink on success leaves filename non-NULL: filename = fullpath (non-NULL fact), split keeps/sets non-NULL
-            rid3 = rep.rule("R5c", "parse_symlink succeeds only with filename set to a non-NULL string", 1)
-            psy = rep.need(rid3, mod.fn("parse_symlink"), "function parse_symlink")
-            if psy:
-                Mp = Matcher(psy)
-                sts = stores_to_field(mod, HDR, "filename", [psy])
-                ok = len(sts) == 1 and Mp.match(("call", "lha_file_header_full_path", [("param", 0)]), sts[0].ops[0], {}) is not None
-                rep.check(rid3, ok, "filename = lha_file_header_full_path(header)", sts[0].where() if sts else psy.file, None, function=psy.cname, obj="store")
-                if ok:
-                    guarded_site(rep, rid3, ctx, sts[0], [("fullpath != NULL", ("ne", ("call", "lha_file_header_full_path", [("param", 0)]), 0))])
-                require_on_success(rep, rid3, ctx, psy, [("split_header_filename(header) != 0", ("ne", ("call", "split_header_filename", [("param", 0)]), 0))])
-                sp = mod.fn("split_header_filename")
-                if sp:
-                    for s in stores_to_field(mod, HDR, "filename", [sp]):
-                        guarded_site(rep, rid3, ctx, s, [("strdup result != NULL", ("ne", ("call", "strdup", [ANY]), 0))])
+        presence_rules(rep, ctx, mod, cg)
 
         # ---- R6: sticky end of iteration -----------------------------------------------------
         rid = rep.rule("R6", "lha_basic_reader_next_file: a failed header read sets eof = 1 before returning NULL; eof != 0 returns NULL before any read", 3)
